@@ -1,8 +1,264 @@
-//! Self-tests of the harness itself (determinism, fidelity).
+//! Self-tests of the harness itself: determinism of the simulation, fidelity of
+//! the facades against the real binary, silence over many seeds.  A failure
+//! here is a harness error (exit 2), never a verdict on a property.
 
-use std::path::Path;
+use crate::c20;
+use crate::common::{lib_call, RunStats};
+use crate::driver::{self, RunArgs};
+use crate::scen::{self, Scenario};
+use crate::world::{execute, StdinSpec};
+use std::collections::BTreeMap;
+use std::io::Write;
+use std::path::{Path, PathBuf};
+use std::process::{Command, Stdio};
 
-pub fn main(_args: &[String], _verif: &Path, _seed: u64) -> i32 {
-    eprintln!("selftest: not implemented yet");
-    2
+fn arg<'a>(args: &'a [String], name: &str) -> Option<&'a str> {
+    args.iter().position(|a| a == name).and_then(|i| args.get(i + 1)).map(|s| s.as_str())
+}
+
+pub fn main(args: &[String], verif: &Path, seed: u64) -> i32 {
+    match args.first().map(|s| s.as_str()) {
+        Some("determinism") => determinism(args, verif, seed),
+        Some("fidelity") => fidelity(args, verif, seed),
+        Some("seeds") => seeds(args, verif),
+        _ => {
+            eprintln!("usage: sim selftest determinism|fidelity|seeds [...]");
+            2
+        }
+    }
+}
+
+/// Every scenario index is executed several times, in different processes and
+/// under different worker counts (so that the same index is computed by
+/// different workers after different predecessors); the hash of its complete
+/// event log, delivered bytes and verdict must be identical every time.
+fn determinism(args: &[String], verif: &Path, seed: u64) -> i32 {
+    let n: u64 = arg(args, "--scenarios").map(|s| s.parse().unwrap()).unwrap_or(2_000);
+    let mut total = 0u64;
+    for prop in scen::PROPS {
+        let mut reference: Option<BTreeMap<u64, u64>> = None;
+        for (round, workers) in [16u64, 16, 4, 1, 7].iter().enumerate() {
+            let a = RunArgs {
+                prop: prop.to_string(),
+                tier: "quick".into(),
+                seed,
+                scenarios: n,
+                workers: *workers,
+                verif_dir: verif.to_path_buf(),
+                write_evidence: false,
+                dump_hashes: true,
+            };
+            let agg = match driver::spawn_workers(&a, &format!("det{}", round)) {
+                Ok(x) => x,
+                Err(e) => {
+                    eprintln!("selftest determinism: harness error: {}", e);
+                    return 2;
+                }
+            };
+            if agg.log_hashes.len() as u64 != n {
+                eprintln!("selftest determinism: expected {} hashes, got {}", n, agg.log_hashes.len());
+                return 2;
+            }
+            match &reference {
+                None => reference = Some(agg.log_hashes),
+                Some(r) => {
+                    let diff: Vec<u64> = r.iter().filter(|(k, v)| agg.log_hashes.get(k) != Some(v)).map(|(k, _)| *k).collect();
+                    if !diff.is_empty() {
+                        eprintln!(
+                            "selftest determinism: property {} round {} (workers={}): {} scenario(s) produced a different event log, first indices {:?}",
+                            prop,
+                            round,
+                            workers,
+                            diff.len(),
+                            &diff[..diff.len().min(10)]
+                        );
+                        return 2;
+                    }
+                }
+            }
+            total += n;
+        }
+        println!("determinism: property {}: {} scenarios x 5 rounds (workers 16,16,4,1,7) identical event-log hashes", prop, n);
+    }
+    println!("determinism OK: {} scenario executions compared, seed {}", total, seed);
+    0
+}
+
+/// The three quick checks stay silent under many different seeds.
+fn seeds(args: &[String], verif: &Path) -> i32 {
+    let n: u64 = arg(args, "--n").map(|s| s.parse().unwrap()).unwrap_or(50);
+    let scenarios: Option<u64> = arg(args, "--scenarios").map(|s| s.parse().unwrap());
+    for s in 1..=n {
+        for prop in scen::PROPS {
+            let a = RunArgs {
+                prop: prop.to_string(),
+                tier: "quick".into(),
+                seed: s * 7919 + 13,
+                scenarios: scenarios.unwrap_or_else(|| driver::tier_scenarios(prop, "quick")),
+                workers: 16,
+                verif_dir: verif.to_path_buf(),
+                write_evidence: false,
+                dump_hashes: false,
+            };
+            let agg = match driver::spawn_workers(&a, "seeds") {
+                Ok(x) => x,
+                Err(e) => {
+                    eprintln!("selftest seeds: harness error: {}", e);
+                    return 2;
+                }
+            };
+            if agg.out.violations_total > 0 {
+                eprintln!("selftest seeds: property {} seed {} reports {} violating scenario(s): {:?}", prop, a.seed, agg.out.violations_total, &agg.out.violations[..agg.out.violations.len().min(3)]);
+                return 1;
+            }
+        }
+    }
+    println!("seeds OK: {} seeds x {} properties silent", n, scen::PROPS.len());
+    0
+}
+
+/// Fault-free C20 variants with an explicit current time are also executed by
+/// the real binary on a real scratch directory with real pipes; stdout, output
+/// file and exit status must equal the simulated execution.
+fn fidelity(args: &[String], verif: &Path, seed: u64) -> i32 {
+    let bin = match arg(args, "--bin") {
+        Some(b) => PathBuf::from(b),
+        None => {
+            eprintln!("selftest fidelity: --bin <path to the real chiritori binary> required");
+            return 2;
+        }
+    };
+    let n: u64 = arg(args, "--n").map(|s| s.parse().unwrap()).unwrap_or(400);
+    let root = verif.join("work").join(format!("fidelity-{}", std::process::id()));
+    let _ = std::fs::remove_dir_all(&root);
+    let mut compared = 0u64;
+    let mut skipped = 0u64;
+    let mut index = 0u64;
+    while compared < n && index < n * 20 {
+        let scn = match scen::generate("C20", seed ^ 0xF1DE, index) {
+            Scenario::C20(s) => s,
+            _ => unreachable!(),
+        };
+        index += 1;
+        let text = scn.doc.render();
+        for (k, v) in scn.variants.iter().enumerate() {
+            if !matches!(v.time, c20::TimeSource::Explicit { .. }) {
+                skipped += 1;
+                continue; // the real clock cannot be set
+            }
+            let (mut fs, mut ex, out_path) = c20::build_exec(&scn, v, &text);
+            ex.io = Default::default(); // fault-free
+            let before = fs.clone();
+            let sim = execute(&mut fs, &ex, crate::cli::run);
+            // --- real execution ---
+            let dir = root.join(format!("{}-{}", index, k));
+            std::fs::create_dir_all(&dir).unwrap();
+            for (p, c) in &before {
+                let fp = dir.join(p);
+                if let Some(parent) = fp.parent() {
+                    std::fs::create_dir_all(parent).unwrap();
+                }
+                std::fs::write(&fp, c).unwrap();
+            }
+            let mut cmd = Command::new(&bin);
+            cmd.args(&ex.argv[1..]).current_dir(&dir).stdout(Stdio::piped()).stderr(Stdio::piped());
+            cmd.env_remove("TZ").env_remove("LANG").env_remove("LC_ALL").env_remove("LC_TIME").env_remove("RUST_BACKTRACE");
+            for (k, v) in &ex.env {
+                cmd.env(k, v);
+            }
+            let stdin_bytes: Option<Vec<u8>> = match &ex.stdin {
+                StdinSpec::Pipe(s) => Some(s.clone().into_bytes()),
+                StdinSpec::PipeBytes(b) => Some(b.clone()),
+                StdinSpec::Tty => None,
+            };
+            if stdin_bytes.is_some() {
+                cmd.stdin(Stdio::piped());
+            } else {
+                cmd.stdin(Stdio::null());
+            }
+            let mut child = match cmd.spawn() {
+                Ok(c) => c,
+                Err(e) => {
+                    eprintln!("selftest fidelity: cannot run {:?}: {}", bin, e);
+                    return 2;
+                }
+            };
+            if let Some(b) = stdin_bytes {
+                let mut si = child.stdin.take().unwrap();
+                // a real pipe, written in small pieces
+                for chunk in b.chunks(5) {
+                    let _ = si.write_all(chunk);
+                }
+                drop(si);
+            }
+            let real = child.wait_with_output().unwrap();
+            let real_code = real.status.code().unwrap_or(-1);
+            let mut problems = Vec::new();
+            if real_code != sim.exit_code() {
+                problems.push(format!("exit status real={} sim={}", real_code, sim.exit_code()));
+            }
+            if real.stdout != sim.stdout {
+                problems.push(format!("stdout real={:?} sim={:?}", String::from_utf8_lossy(&real.stdout), String::from_utf8_lossy(&sim.stdout)));
+            }
+            if real_code == 0 && !real.stderr.is_empty() {
+                problems.push(format!("real stderr {:?}", String::from_utf8_lossy(&real.stderr)));
+            }
+            // every file of the simulated fs must equal the real one, and vice versa
+            for (p, c) in &fs {
+                match std::fs::read(dir.join(p)) {
+                    Ok(rc) if rc == *c => {}
+                    Ok(rc) => problems.push(format!("file {:?} real={:?} sim={:?}", p, String::from_utf8_lossy(&rc), String::from_utf8_lossy(c))),
+                    Err(_) => problems.push(format!("file {:?} missing in the real directory", p)),
+                }
+            }
+            let mut real_files = Vec::new();
+            collect_files(&dir, &dir, &mut real_files);
+            for p in real_files {
+                if !fs.contains_key(&p) {
+                    problems.push(format!("real run created {:?} which the simulation did not", p));
+                }
+            }
+            if !problems.is_empty() {
+                eprintln!("selftest fidelity: the simulated execution differs from the real binary (harness error, not a verdict)");
+                eprintln!("  argv {:?} env {:?} output_path {:?}", ex.argv, ex.env, out_path);
+                for p in problems {
+                    eprintln!("  {}", p);
+                }
+                eprintln!("  scratch dir kept: {}", dir.display());
+                return 2;
+            }
+            let _ = std::fs::remove_dir_all(&dir);
+            compared += 1;
+        }
+    }
+    let _ = std::fs::remove_dir_all(&root);
+    // the direct library call is what C19/C20 use as reference: make sure it is callable here too
+    let _ = lib_call("", &scen_doc(), "+00:00", (0, 0), &Default::default(), crate::common::Mode::Clean, false);
+    let _ = RunStats::new(false);
+    println!("fidelity OK: {} executions compared with the real binary {} ({} clock-reading variants skipped)", compared, bin.display(), skipped);
+    0
+}
+
+fn scen_doc() -> crate::doc::Doc {
+    crate::doc::Doc {
+        ds: crate::doc::DEFAULT_DS.into(),
+        de: crate::doc::DEFAULT_DE.into(),
+        tl_tag: crate::doc::DEFAULT_TL.into(),
+        rm_tag: crate::doc::DEFAULT_RM.into(),
+        nodes: vec![],
+        final_newline: true,
+    }
+}
+
+fn collect_files(root: &Path, dir: &Path, out: &mut Vec<String>) {
+    if let Ok(rd) = std::fs::read_dir(dir) {
+        for e in rd.flatten() {
+            let p = e.path();
+            if p.is_dir() {
+                collect_files(root, &p, out);
+            } else if let Ok(rel) = p.strip_prefix(root) {
+                out.push(rel.to_string_lossy().into_owned());
+            }
+        }
+    }
 }
